@@ -222,8 +222,19 @@ def oracle_units(ctx, calendar: str, units: str, out: str, case: dict | None, de
             return sig
         return None
     # no ground truth (malformed stream / invalid case): whatever is returned must still have the
-    # form and denote the instant cftime reads from the input
+    # form and denote the instant cftime reads from the input; and a string that cftime reads as a
+    # whole-second instant with an offset below 24 h and a four-digit local year must not be refused
     if out == 'ERR':
+        try:
+            ref = cftime.num2pydate(0, units, calendar)
+            bits = cftime._parse_date(cftime._datesplit(units)[1].strip())
+        except Exception:
+            return None
+        if ref.microsecond == 0 and abs(bits[-1]) < 1440 and 1 <= bits[0] <= 9999:
+            sig = 'time-units-offset-format' if TU.f5_class(int(bits[-1])) else 'time-units-valid-input-rejected'
+            ctx.oracle_fail(sig, desc, f'format_time_units_for_ems({units!r}, {calendar!r}) raises although cftime reads the '
+                                       f'string as {ref} UTC, offset {int(bits[-1])} min')
+            return sig
         return None
     text = unesc(out)
     sig = classify_output('', text)
@@ -349,11 +360,9 @@ def units_stream(ctx) -> None:
     flagged: dict = {}
     side_items = []
     for cal, units, case in work:
-        if not ascii_ok(cal) or ' ' in cal and cal.strip() != cal.strip(' '):
-            continue
-        calp = esc(cal).replace(' ', '%20') if cal != '' else '%00'
-        if cal == '':
+        if not ascii_ok(cal) or cal == '':
             continue   # the protocol has no way to send an empty word; covered by 'bogus'
+        calp = esc(cal).replace(' ', '%20')
         line = f'fmt {calp} {esc(units)}'
         out = impl_fmt(cal, units)
         desc = {'op': line, 'calendar': cal, 'units': units}
@@ -385,6 +394,12 @@ def units_stream(ctx) -> None:
             side_items.append((pline, impl_parse(parts[2].strip()), {'op': pline}))
         if out != 'ERR' and case is not None and TU.is_valid(case) and case['period'].lower() in TU.UNIT_MICROS:
             k = rng.randint(-50, 5000)
+            try:   # keep the decoded instant inside year 1..9999 (cftime refuses to hand out others)
+                far = TU.utc_instant(case) + dt.timedelta(microseconds=k * TU.UNIT_MICROS[case['period'].lower()])
+                if not (2 <= far.year <= 9998):
+                    continue
+            except OverflowError:
+                continue
             dline = f'decode {calp} {k} {out}'
             side_items.append((dline, impl_decode(cal, k, unesc(out)), {'op': dline}))
             # time instants are preserved: decoding the same stored number under the old and the new units
